@@ -182,12 +182,33 @@ class Seams:
             return result
         return renamed
 
+    def copier(self, label):
+        """shutil.copyfile & co. are not atomic: the destination is truncated
+        first and filled afterwards. Each stage is a crash point."""
+        def copy(src, dst, *args, **kwargs):
+            self.point(label + ":before")
+            if os.path.isdir(dst):
+                dst = os.path.join(dst, os.path.basename(src))
+            with open(src, "rb") as f:
+                data = f.read()
+            with open(dst, "wb") as g:
+                self.point(label + ":truncated")
+                g.write(data[:len(data) // 2])
+                g.flush()
+                self.point(label + ":half")
+                g.write(data[len(data) // 2:])
+            self.point(label + ":after")
+            return dst
+        return copy
+
     def bindings(self):
         out = dict(open=self.open)
         for modname, module, attr in RENAMERS:
             proxy = out.setdefault(modname, fault.ModuleProxy(module))
             setattr(proxy, attr, self.renamer(
                 getattr(module, attr), "%s.%s" % (modname, attr)))
+        for attr in ("copyfile", "copy", "copy2"):
+            setattr(out["shutil"], attr, self.copier("shutil." + attr))
         return out
 
 
